@@ -50,7 +50,9 @@ class StandardUnitType(UnitType):
             self.conversion = (f"_convert_linear",)
         elif -self.baseunits1.dimensions==self.baseunits2.dimensions:
             self.conversion = (f"_convert_inversed",)
-        elif self.baseunits1.nobase and self.baseunits2.units==['rad']:
+        elif self.baseunits1.nobase and self.baseunits2.units==['rad'] and \
+             self.baseunits2.dimensions.rad.num==self.baseunits2.dimensions.rad.den:
+            # a plain number is an angle in radians; rad2, rad-1, ... are different dimensions
             self.conversion = (f"_convert_linear",)
         else:
             return False
